@@ -1116,3 +1116,92 @@ def rule_iterations_independent(rep, rid, title, f, loop, allowed=(), floor=1, w
               f"{what} depends on the {what}s visited before it", where)
     r.add("loop", not found, f"the loop over {U(loop.iter)} carries no state from one {what} to the next" + (f" (other than {sorted(allowed)})" if allowed else ""), where)
     return r
+
+
+def always_calls(prog, f, attr, depth=2, construct=None):
+    """Structured must-pass: does every path through function `f` that ends normally (falls off the end or returns) execute a call `<x>.attr(...)`
+    (directly, or through a method/function of the same module that itself always does)?  Paths that end in `raise` are not counted.  Loops
+    may run zero times and count for nothing."""
+    def helper(call):
+        if depth <= 0:
+            return False
+        name = None
+        if isinstance(call.func, ast.Attribute) and isinstance(call.func.value, ast.Name) and call.func.value.id == "self" and f.cls is not None:
+            name = f"{f.module.rel}::{f.cls.name}.{call.func.attr}"
+        elif isinstance(call.func, ast.Name):
+            name = f"{f.module.rel}::{call.func.id}"
+        g = prog.funcs.get(name) if name else None
+        return g is not None and g is not f and always_calls(prog, g, attr, depth - 1)
+
+    def expr_has(node):
+        for c in [n for n in walk_no_defs(node) if isinstance(n, ast.Call)]:
+            if isinstance(c.func, ast.Attribute) and c.func.attr == attr:
+                return True
+            if helper(c):
+                return True
+        return False
+
+    def seq(stmts):
+        """-> 'yes' (every normally-ending path so far has called), 'no' (some path left by return without calling), None (undecided, go on)"""
+        for st in stmts:
+            if isinstance(st, ast.Return):
+                return "yes" if (st.value is not None and expr_has(st.value)) else "no"
+            if isinstance(st, ast.Raise):
+                return "yes"  # this path does not end normally
+            if isinstance(st, ast.If):
+                if expr_has(st.test):
+                    return "yes"
+                a, b = seq(st.body), seq(st.orelse)
+                if a == "yes" and b == "yes":
+                    return "yes"
+                if a == "no" or b == "no":
+                    return "no"
+                continue
+            if isinstance(st, (ast.For, ast.While)):
+                if isinstance(st, ast.For) and expr_has(st.iter):
+                    return "yes"
+                inner = seq(st.body)
+                if inner == "no":
+                    return "no"
+                continue
+            if isinstance(st, ast.With):
+                if any(expr_has(i.context_expr) for i in st.items):
+                    return "yes"
+                inner = seq(st.body)
+                if inner:
+                    return inner
+                continue
+            if isinstance(st, ast.Try):
+                inner = seq(st.body + st.orelse)
+                fin = seq(st.finalbody) if st.finalbody else None
+                if fin == "yes" or (inner == "yes" and all(seq(h.body) == "yes" for h in st.handlers)):
+                    return "yes"
+                if inner == "no" or fin == "no" or any(seq(h.body) == "no" for h in st.handlers):
+                    return "no"
+                continue
+            if isinstance(st, (ast.FunctionDef, ast.ClassDef)):
+                continue
+            if expr_has(st):
+                return "yes"
+        return None
+
+    return seq(f.node.body) == "yes"
+
+
+def rule_refill_is_unconditional(prog, rep, rid, title, attr="assign_cells", floor=2):
+    """The neighbour map is a cache of the atom list.  A function that refills it (`attr`) does so on every path: a refill under a condition
+    ("only if something changed") leaves a map that describes an earlier atom list whenever the condition misjudges."""
+    r = rep.rule(rid, title, floor=floor)
+    n = 0
+    for key, f in sorted(prog.funcs.items()):
+        direct = [c for c in calls_in(f.node) if isinstance(c.func, ast.Attribute) and c.func.attr == attr]
+        if not direct or f.node.name == attr:
+            continue
+        n += 1
+        ok = always_calls(prog, f, attr, depth=0)
+        r.add(f"refill|{key}", ok, f"{f.qual} fills the cell map from the current atom list " + ("on every path" if ok else
+              f"on some paths only (line {direct[0].lineno}): on the others the queries that follow read a map built for an earlier atom list"),
+              f"pdb2pqr/{f.module.rel}:{direct[0].lineno} ({f.qual})")
+    if n == 0:
+        raise AnalysisError(f"{rid}: no function calls {attr} (anchor vanished)")
+    return r
